@@ -111,12 +111,34 @@ pub fn run(ctx: &mut Ctx) {
     cfg.dividends = false;
     let n = ctx.n(600, 40_000);
     let cases = matcher_cases(prop, ctx, &cfg, n);
-    ctx.ev.rule = "corpus + repo fixtures + generated ledgers (1–3 securities, 2–14 lines, dates clustered on window edges / month ends / 5–6 April, exact split ratios, fractional quantities; every third a contention shape). Compared (projection of this property): accept/reject, per-disposal-day leg quantity totals, closing holding quantities. Non-trivial = accepted ledger in which a disposal is spread over ≥ 2 rules or a 30-day leg crosses a split; distinct by ledger text.".into();
+    ctx.ev.rule = "corpus + repo fixtures + generated ledgers (1–3 securities, 2–14 lines, dates clustered on window edges / month ends / 5–6 April, exact split ratios, fractional quantities; every third a contention shape). Report level: every reported disposal's legs and quantity add up to that day's SELL lines, one disposal per (date, security) with sales. Compared (projection of this property): accept/reject, per-disposal-day leg quantity totals, closing holding quantities. Non-trivial = accepted ledger in which a disposal is spread over ≥ 2 rules or a 30-day leg crosses a split; distinct by ledger text.".into();
     let proj = Proj { money: false, qty: true, legs_exact: true, holdings: true, err_detail: false, legs_day_totals: true, legs_none: false };
     let mut cli_left: u32 = if ctx.tier == Tier::Quick { 8 } else { 80 };
     for (name, l) in cases {
         if cli_left > 0 && well_formed(&l) && l.len() >= 3 { cli_left -= 1; cli_crosscheck(ctx, prop, &l, None); }
         ctx.ev.evaluations += 1;
+        // (a) at report level too: each reported disposal's legs add up to the quantity sold that day, which is
+        // the sum of that day's SELL lines (the calculator regroups the matcher's legs into disposals)
+        if well_formed(&l) {
+            if let Ok(rep) = run_impl::impl_calc(&l, None, &run_impl::wide_exemptions()) {
+                for d in rep.years.iter().flat_map(|y| y.disposals.iter()) {
+                    let legs = Q::sum(d.legs.iter().map(|x| &x.qty));
+                    let sold = Q::sum(l.iter().filter(|t| t.kind == Kind::Sell && t.ticker == d.ticker && t.date == d.date).map(|t| Q::from_dec(t.a)).collect::<Vec<_>>().iter());
+                    if !legs.eq(&sold) || !d.qty.eq(&sold) {
+                        let what = format!("{} {}: the report's legs add up to {}, its quantity is {}, but {} were sold that day", d.date, d.ticker, legs.approx(), d.qty.approx(), sold.approx());
+                        ctx.ev.violation("oracle", what.clone(), replay_text(prop, "oracle (a), report level: cgt-tool report --format json", &what, &l, &[format!("case {name}")]));
+                        break;
+                    }
+                }
+                let listed = rep.years.iter().flat_map(|y| y.disposals.iter()).count();
+                let mut keys: Vec<(chrono::NaiveDate, &str)> = l.iter().filter(|t| t.kind == Kind::Sell).map(|t| (t.date, t.ticker.as_str())).collect();
+                keys.sort(); keys.dedup();
+                if listed != keys.len() {
+                    let what = format!("the report lists {listed} disposals but the ledger has sales on {} (date, security) pairs", keys.len());
+                    ctx.ev.violation("oracle", what.clone(), replay_text(prop, "oracle (a), report level", &what, &l, &[format!("case {name}")]));
+                }
+            }
+        }
         let imp = run_impl::impl_match(&l);
         let msd = multi_sell_day(&l);
         if msd { ctx.ev.count("multiSellDay"); }
